@@ -254,6 +254,11 @@ def _hlin(f, e, syms, sign=1, acc=None, scale=1):
         if e[0] == "int":
             acc[1] = acc.get(1, 0) + sign * scale * e[1]
             return acc
+        cs_ = mir.checked_sub_payload(e)
+        if cs_ is not None:
+            _hlin(f, cs_[0], syms, sign, acc, scale)
+            _hlin(f, cs_[1], syms, -sign, acc, scale)
+            return acc
         if e[0] == "binop" and e[1] in ("Add", "Sub", "AddUnchecked", "SubUnchecked"):
             _hlin(f, e[2], syms, sign, acc, scale)
             _hlin(f, e[3], syms, sign if e[1].startswith("Add") else -sign, acc, scale)
